@@ -11,6 +11,8 @@ from pycaption.scc.constants import CHARACTERS, PAC_BYTES_TO_POSITIONING_MAP
 WORDS = ["hello", "world", "caption", "text", "The", "quick", "brown", "fox", "yes", "no", "one", "two", "R&D",
          "a<b", "x>y", "100%", "it's", "[music]"]
 PLAIN = ["hello", "world", "caption", "text", "the", "quick", "brown", "fox", "yes", "no", "one", "two"]
+EXOTIC = ["na\u00efve", "\u266a la la", "\u65e5\u672c\u8a9e", "\u00bfqu\u00e9?", "l\u2019\u00e9t\u00e9",
+          "a considerably longer line of caption text that does not fit thirty-two columns"]
 LANGS = ["en-US", "fr", "de", "es"]
 
 
@@ -53,10 +55,28 @@ def doc_srt(rng):
 def doc_vtt(rng):
     n = rng.randint(1, 4)
     out = ["WEBVTT\n"]
-    for (s, e) in spans(rng, n):
+    if rng.random() < 0.2:
+        out.append("STYLE\n::cue { color: yellow }\n")
+    for k, (s, e) in enumerate(spans(rng, n)):
+        if rng.random() < 0.15:
+            out.append("NOTE a comment\nover two lines\n")
         settings = rng.choice(["", "", " align:left", " line:10% position:20% size:60%", " align:right line:0"])
-        lines = [words(rng, pool=PLAIN) for _ in range(rng.randint(1, 2))]
-        out.append("%s --> %s%s\n%s\n" % (clock(s, ".", rng.random() < 0.5), clock(e, "."), settings, "\n".join(lines)))
+        lines = []
+        for _ in range(rng.randint(1, 2)):
+            w = words(rng, pool=PLAIN)
+            q = rng.random()
+            if q < 0.12:
+                w = "<i>%s</i>" % w
+            elif q < 0.2:
+                w = "<v Bob>%s</v>" % w
+            elif q < 0.27:
+                w = "<c.loud>%s</c> R&amp;D &lt;x" % w
+            elif q < 0.33:
+                w = "<b>%s</b> <u>%s</u>" % (w, rng.choice(PLAIN))
+            lines.append(w)
+        cue_id = ("cue-%d\n" % k) if rng.random() < 0.25 else ""
+        out.append("%s%s --> %s%s\n%s\n" % (cue_id, clock(s, ".", rng.random() < 0.5), clock(e, "."), settings,
+                                             "\n".join(lines)))
     return "\n".join(out)
 
 
@@ -120,8 +140,22 @@ def doc_dfxp(rng):
                     parts.append('<span tts:fontWeight="bold" tts:color="blue">%s</span>' % w)
                 else:
                     parts.append(w)
-            ps.append('<p begin="%s" end="%s"%s>%s</p>' % (clock(s), clock(e), attrs, "<br/>".join(parts)))
-        divs.append('<div xml:lang="%s">%s</div>' % (lang, "".join(ps)))
+            if rng.random() < 0.15:
+                # positioning attributes directly on <p> (honoured only with read_invalid_positioning=True)
+                attrs += ' tts:origin="%s" tts:extent="%s"' % (("32px 18px", "160px 90px") if absolute else ("5% 80%", "90% 15%"))
+            if rng.random() < 0.12:
+                attrs += ' tts:textAlign="right" tts:color="green"'
+            if rng.random() < 0.1:
+                parts.append('<span tts:fontStyle="italic">%s <span tts:fontWeight="bold">%s</span> %s</span>'
+                             % (rng.choice(PLAIN), rng.choice(PLAIN), rng.choice(PLAIN)))          # nested spans
+            if rng.random() < 0.2:
+                ps.append('<p begin="%s" dur="%s"%s>%s</p>' % (clock(s), clock(e - s), attrs, "<br/>".join(parts)))
+            else:
+                ps.append('<p begin="%s" end="%s"%s>%s</p>' % (clock(s), clock(e), attrs, "<br/>".join(parts)))
+        if lang == langs[0] and rng.random() < 0.2:
+            divs.append('<div>%s</div>' % "".join(ps))                  # language inherited from <tt>
+        else:
+            divs.append('<div xml:lang="%s">%s</div>' % (lang, "".join(ps)))
     return ('<?xml version="1.0" encoding="utf-8"?>\n<tt xml:lang="%s" xmlns="http://www.w3.org/ns/ttml" '
             'xmlns:tts="http://www.w3.org/ns/ttml#styling"><head><styling>%s</styling><layout>%s</layout></head>'
             '<body>%s</body></tt>' % (langs[0], "".join(styles), "".join(regions), "".join(divs)))
@@ -167,13 +201,23 @@ def doc_sami(rng, style=None):
                 for _ in range(rng.randint(1, 2)):
                     w = xml_esc(words(rng, pool=PLAIN))
                     q = rng.random()
-                    if q < 0.25:
+                    if q < 0.2:
                         parts.append("<i>%s</i>" % w)
-                    elif q < 0.35:
-                        parts.append('<span style="color:red;">%s</span>' % w)
+                    elif q < 0.27:
+                        parts.append("<b>%s</b> <u>%s</u>" % (w, rng.choice(PLAIN)))
+                    elif q < 0.45:
+                        decls = rng.sample(["color:red", "font-weight:bold", "font-style:italic",
+                                            "text-decoration:underline", "text-align:right", "font-size:12px",
+                                            "font-family:Arial"], rng.randint(1, 4))
+                        parts.append('<span style="%s;">%s</span>' % (";".join(decls), w))
                     else:
                         parts.append(w)
-                ps.append('<P class="%s">%s</P>' % (rng.choice(classes[lang]), "<br/>".join(parts)))
+                pattr = ""
+                if rng.random() < 0.15:
+                    pattr += ' style="text-align:%s;"' % rng.choice(["left", "right", "center"])
+                if rng.random() < 0.1:
+                    pattr += ' id="p%d"' % rng.randint(1, 9)
+                ps.append('<P class="%s"%s>%s</P>' % (rng.choice(classes[lang]), pattr, "<br/>".join(parts)))
         syncs.append('<SYNC start="%d">%s</SYNC>' % (s, "".join(ps)))
         syncs.append('<SYNC start="%d">%s</SYNC>'
                      % (e, "".join('<P class="%s">&nbsp;</P>' % classes[lg][0] for lg in langs)))
@@ -202,23 +246,56 @@ def _pac(row, col):
     raise KeyError((row, col))
 
 
+def _stamp(t):
+    return "00:%02d:%02d:00" % (t // 60, t % 60)
+
+
 def doc_scc(rng):
+    """pop-on (with or without the leading Erase-Non-displayed-Memory, doubled or single commands, rows with or without
+    a preamble address code, mid-row italics, tab offsets), roll-up (2-4 rows, carriage returns) and paint-on documents,
+    sometimes mixed: whatever decoder state a read leaves behind (cursor position, last command, roll rows, active
+    buffer) differs from document to document"""
     out = ["Scenarist_SCC V1.0", ""]
     t = rng.choice([1, 2, 10, 61])
-    for _ in range(rng.randint(1, 3)):
-        rows = rng.sample([12, 13, 14, 15], rng.randint(1, 2))
-        ws = ["94ae", "94ae", "9420", "9420"]
-        for row in sorted(rows):
-            pac = _pac(row, rng.choice([0, 4, 8]))
-            ws += [pac, pac] + scc_words(words(rng, n=(1, 2), pool=PLAIN))
-        ws += ["942f", "942f"]
-        out.append("00:%02d:%02d:00\t%s" % (t // 60, t % 60, " ".join(ws)))
-        out.append("")
-        t += rng.choice([2, 3, 5])
-        if rng.random() < 0.8:
-            out.append("00:%02d:%02d:00\t942c 942c" % (t // 60, t % 60))
-            out.append("")
-            t += rng.choice([1, 2])
+    style = rng.choice(["pop", "pop", "pop", "roll", "paint", "mixed"])
+    dbl = (lambda w: [w, w]) if rng.random() < 0.7 else (lambda w: [w])
+    for k in range(rng.randint(1, 3)):
+        mode = style if style != "mixed" else rng.choice(["pop", "roll", "paint"])
+        if mode == "pop":
+            ws = []
+            if rng.random() < 0.55:
+                ws += dbl("94ae")
+            ws += dbl("9420")
+            rows = rng.sample([11, 12, 13, 14, 15], rng.randint(1, 2))
+            for j, row in enumerate(sorted(rows)):
+                if j == 0 and rng.random() < 0.15:
+                    pass                                  # no preamble address code: the cursor stays where it was
+                else:
+                    ws += dbl(_pac(row, rng.choice([0, 4, 8])))
+                    if rng.random() < 0.15:
+                        ws += dbl(rng.choice(["97a1", "97a2", "9723"]))      # tab offset
+                if rng.random() < 0.2:
+                    ws += dbl("91ae") + scc_words(rng.choice(PLAIN)) + dbl("9120")    # mid-row italics on / off
+                ws += scc_words(words(rng, n=(1, 2), pool=PLAIN))
+            ws += dbl("942f")
+            out += ["%s\t%s" % (_stamp(t), " ".join(ws)), ""]
+            t += rng.choice([2, 3, 5])
+            if rng.random() < 0.8:
+                out += ["%s\t%s" % (_stamp(t), " ".join(dbl("942c"))), ""]
+                t += rng.choice([1, 2])
+        elif mode == "roll":
+            ru = rng.choice(["9425", "9426", "94a7"])
+            for _ in range(rng.randint(1, 3)):
+                ws = dbl(ru) + dbl("94ad") + dbl(_pac(15, rng.choice([0, 4]))) + scc_words(words(rng, n=(1, 3), pool=PLAIN))
+                out += ["%s\t%s" % (_stamp(t), " ".join(ws)), ""]
+                t += rng.choice([2, 3])
+        else:
+            ws = dbl("9429") + dbl(_pac(rng.choice([13, 14, 15]), 0)) + scc_words(words(rng, n=(1, 2), pool=PLAIN))
+            out += ["%s\t%s" % (_stamp(t), " ".join(ws)), ""]
+            t += rng.choice([2, 4])
+            if rng.random() < 0.6:
+                out += ["%s\t%s" % (_stamp(t), " ".join(dbl("942c"))), ""]
+                t += 1
     return "\n".join(out) + "\n"
 
 
@@ -301,7 +378,8 @@ def reader_opts(rng, fmt):
 
 # ---- API-built sets -------------------------------------------------------------------------------------------------
 STYLE_CONTENTS = [{"italics": True}, {"bold": True}, {"underline": True}, {"italics": True, "color": "red"},
-                  {"font-size": "12px"}, {}, {"color": "blue"}]
+                  {"font-size": "12px"}, {}, {"color": "blue"}, {"text-align": "right"}, {"font-family": "Arial"},
+                  {"display-align": "before", "italics": False}, {"class": "s1"}]
 REL_LAYOUTS = [None, None, "rel_fit", "rel_noext", "rel_over", "align", "pad", "vtt", "empty"]
 SET_LEVEL_POOL = ["rel_fit", "rel_fit", "align", "pad", "rel_noext", "rel_over", "abs"]
 VIDEO_SIZES = [(640, 360), (640, 360), (1280, 720), (720, 576)]
@@ -318,7 +396,7 @@ def gen_nodes(rng, lay):
         if r < 0.3:
             nodes.append(["s", True, dict(rng.choice(STYLE_CONTENTS)), lay() if rng.random() < 0.25 else None])
             open_ = True
-        nodes.append(["t", words(rng), lay() if rng.random() < 0.3 else None])
+        nodes.append(["t", rng.choice(EXOTIC) if rng.random() < 0.12 else words(rng), lay() if rng.random() < 0.3 else None])
         if open_ and rng.random() < 0.65:        # sometimes left unbalanced (a style start without its end)
             nodes.append(["s", False, dict(rng.choice(STYLE_CONTENTS)), None])
             open_ = False
@@ -357,6 +435,9 @@ def gen_spec(rng, mode=None):
                 s_, e_ = s * 1000 * 1001 / 1000.0 + 1 / 3.0, e * 1000 * 1001 / 1000.0 + 1 / 3.0
             else:
                 s_, e_ = s * 1000, e * 1000
+            if rng.random() < 0.04:
+                # times no writer can print: every writer must refuse (and leave its input alone)
+                e_ = rng.choice([10 ** 21, float("inf"), float("nan")])
             st = rng.random()
             style = None if st < 0.5 else dict(rng.choice([{}, {"color": "red"}, {"text-align": "center"},
                                                            {"class": "s1"}, {"italics": True}]))
@@ -370,6 +451,21 @@ def gen_spec(rng, mode=None):
                 caps.append({"start": 1000000, "end": 2000000, "style": None, "layout": None,
                              "nodes": [["t", words(rng), None]]})
         langs.append({"lang": lang, "layout": lang_lay, "caps": caps})
+    all_caps = [c for lg in langs for c in lg["caps"]]
+    alias = False
+    if len(all_caps) >= 2 and rng.random() < 0.2:
+        # internal aliasing: one Caption object under two languages / twice in a list, a shared style dict, Layout, node
+        alias = True
+        for c in all_caps[1:]:
+            q = rng.random()
+            if q < 0.3:
+                c["same_as"] = rng.randint(0, 3)
+            elif q < 0.5:
+                c["style_of"] = rng.randint(0, 3)
+            elif q < 0.65:
+                c["layout_of"] = rng.randint(0, 3)
+            elif q < 0.75:
+                c["node_of"] = rng.randint(0, 3)
     styles = None
     if mode == "rich":
         styles = [["p", {"color": "white", "text-align": "center"}], ["s1", {"italics": True}]]
@@ -385,7 +481,10 @@ def gen_spec(rng, mode=None):
         for sel in rng.sample(["s1", "p", "span", "big"], rng.randint(0, 3)):
             styles.append([sel, dict(rng.choice([{"color": "red"}, {"text-align": "left", "font-size": "10px"}, {},
                                                  {"italics": True}, {"lang": "en-US"}]))])
-    return {"layout": lay() if rng.random() < 0.4 else None, "styles": styles, "langs": langs}
+    spec = {"layout": lay() if rng.random() < 0.4 else None, "styles": styles, "langs": langs}
+    if alias and styles and rng.random() < 0.4:
+        spec["styles_alias"] = True
+    return spec
 
 
 # ---- writers ----------------------------------------------------------------------------------------------------------
@@ -401,12 +500,15 @@ def gen_writer(rng, kind=None):
             wopts["relativize"] = False
         if rng.random() < 0.25:
             wopts["fit_to_screen"] = False
-        if rng.random() < 0.4:
+        q = rng.random()
+        if q < 0.4:
             wopts["video_width"], wopts["video_height"] = rng.choice(VIDEO_SIZES)
+        elif q < 0.46:
+            wopts["video_width"] = 640                  # only one dimension given
     if kind in ("dfxp", "single") and rng.random() < 0.3:
         wopts["write_inline_positioning"] = True
     if kind == "single" and rng.random() < 0.5:
-        wopts["default_positioning"] = rng.choice(["rel_fit", "rel_noext", "abs", "align"])
+        wopts["default_positioning"] = rng.choice(["rel_fit", "rel_noext", "abs", "align", "pad", "vtt"])
     return kind, wopts
 
 
@@ -430,12 +532,14 @@ def gen_edit(rng):
         return ["cap_time", li, ci, rng.choice(["start", "end"]), rng.choice([0, 1234000, 99000000])]
     if r < 0.65:
         return ["append_node", li, ci, words(rng)]
-    if r < 0.8:
+    if r < 0.78:
         return ["cap_style", li, ci, rng.choice(["bold", "color", "class"]), rng.choice([True, "red", "s1"])]
-    if r < 0.88:
+    if r < 0.84:
         return ["cap_layout", li, ci, rng.choice(["rel_fit", "rel_noext", "align"])]
-    if r < 0.96:
+    if r < 0.90:
         return ["node_content", li, ci, ni, words(rng)]
+    if r < 0.97:
+        return ["node_dict", li, ci, ni, rng.choice(["color", "italics", "x"]), rng.choice(["pink", True])]
     return ["del_cap", li, ci]
 
 
@@ -488,12 +592,33 @@ def history_c09(rng):
         return [src(0), b,
                 {"op": "write", "kind": kind, "wopts": wopts, "kw": {}, "w": 0, "set": 0},
                 {"op": "write", "kind": kind, "wopts": wopts, "kw": {}, "w": 1, "set": 1}]
+    if shape < 0.67 and shape >= 0.57:
+        # write, edit the set in place, write again (same object, then a fresh one): the second text must be the text
+        # of the EDITED set (its pristine twin: creation + the edits + the write alone in a fresh process)
+        src0 = gen_source(rng, rid=0, p_build=0.5)
+        kind, wopts = gen_writer(rng)
+        kw = gen_kw(rng, kind, spec_langs(src0))
+        ops = [src0, {"op": "write", "kind": kind, "wopts": wopts, "kw": kw, "w": 0, "set": 0}]
+        for _ in range(rng.randint(1, 2)):
+            li, ci, ni = rng.randint(0, 3), rng.randint(0, 5), rng.randint(0, 5)
+            ops.append({"op": "edit", "set": 0, "edit": rng.choice([
+                ["node_content", li, ci, ni, words(rng)], ["append_node", li, ci, words(rng)],
+                ["cap_time", li, ci, "end", rng.choice([1234000, 99000000])], gen_edit(rng)])})
+        ops.append({"op": "write", "kind": kind, "wopts": wopts, "kw": kw, "w": 0, "set": 0})
+        ops.append({"op": "write", "kind": kind, "wopts": wopts, "kw": kw, "w": 1, "set": 0})
+        return ops
     if shape < 0.57:
         # the SAME set written by different writer objects of one class under DIFFERENT options (video sizes, none,
         # relativize / fit off), in random order; each is compared with its pristine twin
         src0 = ({"op": "build", "spec": gen_spec(rng, rng.choice(["abs", "abs", "rich", None]))}
                 if rng.random() < 0.8 else gen_source(rng, rid=0, p_build=0.0, fmts=["dfxp", "sami", "scc"]))
         kind = rng.choice(["dfxp", "sami", "single", "vtt", "dfxp", "sami"])
+        if src0["op"] == "build" and rng.random() < 0.35:
+            # a set EVERY writer must refuse (a caption time no writer can print), with positioning at every level
+            src0 = {"op": "build", "spec": gen_spec(rng, "rich")}
+            caps = [c for lg in src0["spec"]["langs"] for c in lg["caps"] if "same_as" not in c]
+            rng.choice(caps)["end"] = rng.choice([float("inf"), float("nan"), 10 ** 21, float("inf")])
+            kind = rng.choice(WRITER_KINDS)
         variants = [{"video_width": w_, "video_height": h_} for (w_, h_) in set(VIDEO_SIZES)] + \
                    [{}, {"relativize": False}, {"fit_to_screen": False, "video_width": 640, "video_height": 360}]
         rng.shuffle(variants)
@@ -538,7 +663,7 @@ def history_c09(rng):
     return ops
 
 
-def history_c10(rng):
+def history_c10(rng, maxlen=9):
     """3-9 operations: reads of the six formats on fresh and REUSED reader objects (same document again, another
     document; reader constructor options), API-built sets, writes by any writer in between, edits of a set (add_style,
     rules in place, caption times / style / layout, node append / content, caption removal), and re-reads of a
@@ -550,7 +675,7 @@ def history_c10(rng):
     docs = []             # (fmt, doc, opts) read so far
     sami_styles = []
     wid = 0
-    n = rng.randint(3, 9)
+    n = rng.randint(3, maxlen)
     while len(ops) < n:
         r = rng.random()
         if nsets == 0 or r < 0.45:
@@ -590,6 +715,8 @@ def history_c10(rng):
                 rid += 1
                 readers.setdefault(key, []).append(use)
             ops.append({"op": "read", "fmt": fmt, "doc": doc, "opts": opts, "ropts": ropts, "r": use})
+            if rng.random() < 0.25:
+                ops[-1]["detect"] = True               # reader.detect(document) is called first
             nsets += 1
             if refused and rng.random() < 0.8:
                 # ... and now the SAME reader object reads a valid document
@@ -603,20 +730,26 @@ def history_c10(rng):
         else:
             kind, wopts = gen_writer(rng)
             s = rng.randrange(nsets)
-            ops.append({"op": "write", "kind": kind, "wopts": wopts, "kw": {}, "w": wid, "set": s})
+            ops.append({"op": "write", "kind": kind, "wopts": wopts, "kw": gen_kw(rng, kind, list(LANGS[:2])),
+                        "w": wid, "set": s})
             wid += 1
     return ops
 
 
 def pristine_twin(history, which=-1):
-    """the creation ops of a history followed by ONE of its writes (default the last), done by a fresh writer object:
-    what that write returns in a process where nothing else has been written"""
-    writes = [op for op in history if op["op"] == "write"]
-    if not writes:
+    """the creation ops of a history, the edits of the written set that precede the write, and ONE of its writes
+    (default the last) done by a fresh writer object: what that write returns in a process where nothing else has
+    been written (and no other set edited)"""
+    widx = [k for k, op in enumerate(history) if op["op"] == "write"]
+    if not widx:
         return None
-    edited = set(op["set"] for op in history if op["op"] == "edit")
-    w = writes[which]
-    if w["set"] in edited:
-        return None
+    k = widx[which]
+    w = history[k]
     twin = [op for op in history if op["op"] in ("build", "read")]
+    last_creation = max([j for j, op in enumerate(history) if op["op"] in ("build", "read")] + [-1])
+    for j, op in enumerate(history[:k]):
+        if op["op"] == "edit" and op["set"] == w["set"]:
+            if j < last_creation:
+                return None          # an edit before a later creation op: the order cannot be kept in the twin
+            twin.append(op)
     return twin + [dict(w, w=0)]
